@@ -14,6 +14,7 @@ import (
 
 	"github.com/Masterminds/semver"
 	"github.com/cube2222/octosql/config"
+	"github.com/cube2222/octosql/verifhook"
 )
 
 var repositoriesDir = func() string {
@@ -60,6 +61,7 @@ func AddRepository(ctx context.Context, url string) error {
 	if err != nil {
 		return fmt.Errorf("couldn't get repository: %w", err)
 	}
+	verifhook.Point("repo.fetched")
 	entry := RepositoryEntry{
 		URL: url,
 	}
@@ -70,9 +72,11 @@ func AddRepository(ctx context.Context, url string) error {
 	if err := os.MkdirAll(repositoriesDir, 0755); err != nil {
 		return fmt.Errorf("couldn't create plugin repositories directory: %w", err)
 	}
+	verifhook.BeforeWrite("repo.before_write", filepath.Join(repositoriesDir, repo.Slug), data)
 	if err := os.WriteFile(filepath.Join(repositoriesDir, repo.Slug), data, 0644); err != nil {
 		return fmt.Errorf("couldn't write repository entry: %w", err)
 	}
+	verifhook.Point("repo.after_write")
 
 	return nil
 }
